@@ -17,6 +17,11 @@ impl BoxError {
     { unimplemented!() }
 }
 impl std::fmt::Debug for BoxError { #[verifier::external_body] fn fmt(&self, f: &mut std::fmt::Formatter<'_>) -> std::fmt::Result { unimplemented!() } }
+/// Display of the wrapped errors: total, text unspecified
+impl std::fmt::Display for BoxError { #[verifier::external_body] fn fmt(&self, f: &mut std::fmt::Formatter<'_>) -> std::fmt::Result { unimplemented!() } }
+impl vstd::std_specs::fmt::DisplaySpecImpl for BoxError { open spec fn fmt_req(&self, f: &std::fmt::Formatter<'_>) -> bool { true } }
+impl vstd::std_specs::fmt::DisplaySpecImpl for IOError { open spec fn fmt_req(&self, f: &std::fmt::Formatter<'_>) -> bool { true } }
+impl std::fmt::Display for IOError { #[verifier::external_body] fn fmt(&self, f: &mut std::fmt::Formatter<'_>) -> std::fmt::Result { unimplemented!() } }
 impl std::fmt::Debug for IOError { #[verifier::external_body] fn fmt(&self, f: &mut std::fmt::Formatter<'_>) -> std::fmt::Result { unimplemented!() } }
 
 //@ item error.rs enum SignatureError
